@@ -992,12 +992,15 @@ func (w *world) call(o c05Op, main bool) {
 	if rc == "panic" {
 		w.tag("panic:" + o.K)
 		if o.K != "dcache" {
-			// a panic inside Unlock etc. leaves the manager half-updated
+			// a panic inside Unlock etc. leaves the manager half-updated:
+			// judge this call, then stop the history
 			w.dead = true
-			return
 		}
 	}
 	w.judge(o, wasLocked, wasWatch, rc, material)
+	if w.dead {
+		return
+	}
 	if main {
 		w.tag("op:" + o.K)
 	} else {
